@@ -1440,6 +1440,37 @@ fn main() {
         let q: Vec<Vec<f64>> = (0..4).map(|_| { let r = rng.pick(&d.x).clone(); r.iter().map(|v| v * rng.uniform(0.5, 1.5) + rng.normal()).collect() }).collect();
         check_twin(&mut out, &d.x, &d.y, alpha, &q, &d.family);
     }
+    // ---- unequal class sizes on large, commonly shifted features (own generator: streams above unchanged).
+    // g(0) then lines up with the dominant direction of X^T X and the very first line search needs
+    // 10-25 contractions: the family that exercises the line search's contraction budget and its null-step exit.
+    {
+        let mut r2 = Rng::new(a.seed ^ 0x5eed_09f1);
+        for i in 0..(if a.thorough { 1500 } else { 150 }) {
+            let k = *r2.pick(&[2usize, 2, 2, 3]);
+            let n = r2.usize_in(25, if a.thorough { 100 } else { 70 });
+            let p = r2.usize_in(1, 6);
+            let sep = *r2.pick(&[0.0, 0.5, 1.0, 2.0]);
+            let labels = label_values(&mut r2, k);
+            let centers: Vec<Vec<f64>> = (0..k).map(|_| (0..p).map(|_| r2.normal() * sep).collect()).collect();
+            let scales: Vec<f64> = (0..p).map(|_| log_uniform(&mut r2, 30.0, 100.0)).collect();
+            let shifts: Vec<f64> = (0..p).map(|j| r2.uniform(2.0, 4.0) * scales[j] * if r2.bool() { 1.0 } else { -1.0 }).collect();
+            let minority = r2.uniform(0.04, 0.25);
+            let mut x = vec![];
+            let mut y = vec![];
+            for i in 0..n {
+                let c = if i < k { i } else if r2.chance(minority) { r2.usize_in(1, k - 1) } else { 0 };
+                x.push((0..p).map(|j| (centers[c][j] + r2.normal()) * scales[j] + shifts[j]).collect::<Vec<f64>>());
+                y.push(labels[c]);
+            }
+            let mut idx: Vec<usize> = (0..n).collect();
+            r2.shuffle(&mut idx);
+            let x2: Vec<Vec<f64>> = idx.iter().map(|&i| x[i].clone()).collect();
+            let y2: Vec<f64> = idx.iter().map(|&i| y[i]).collect();
+            let alpha = if i % 6 == 0 { 0.0 } else { log_uniform(&mut r2, 1e-2, 10.0) };
+            let family = format!("{}:skewed-large-shift", if k == 2 { "binary" } else { "multi" });
+            check_fit(&mut out, &mut st, &x2, &y2, alpha, &family);
+        }
+    }
     out.set(
         "stationarity_by_exit",
         json!({"exits": {"start": st.exits[0], "gradient": st.exits[1], "step": st.exits[2], "objective_flat": st.exits[3], "max_iter": st.exits[4]},
